@@ -185,7 +185,7 @@ func main() {
 		pair(run, unit, t, key, from, to, unit == 0)
 	})
 	// successive growth under ONE long-lived polling feeder (state kept between cycles must not go stale)
-	run.Floor("chain_steps", 80)
+	run.Floor("chain_steps", 60)
 	run.Units("chains", run.Pick(24, 240), 0, func(unit int64, r *rand.Rand) { chain(run, unit, r, tree, key) })
 	if run.Thorough() {
 		big := &reftree.Tree{Seed: uint64(run.Seed) + 99, TagA: 1, TagB: 1, Fork: ^uint64(0)}
